@@ -80,6 +80,8 @@ def op_term(op):
         return C(k, op[1], op[2], op[3], bool(op[4]))
     if k == "AddTrait":
         return C(k, op[1], op[2], tdef_term(tdef(op[3]["kind"], op[3]["content"], 0, 0, 0, False)))
+    if k == "Introspect":
+        return C(k, op[1], op[2])
     if k == "NewInst":
         return C(k, op[1])
     raise ValueError(op)
@@ -96,7 +98,7 @@ def to_term(case, obs):
 
 # ---- signatures
 def trait_kind(case, op):
-    if op[0] == "NewInst":
+    if op[0] in ("NewInst", "Introspect"):
         return "-"
     for t in case["traits"]:
         if t["name"] == op[2]:
@@ -199,16 +201,23 @@ def gen_case(rnd, ctx, maxlen):
             op = ["Assign", i, n, gen_content(rnd, k, default_content(i, n)), rnd.randint(0, 9)]
         elif r < 0.65:
             op = ["Mutate", i, n, 100 + s]
-        elif r < 0.80:
+        elif r < 0.78:
             hid[0] += 1
             op = ["Register", i, n, hid[0], rnd.random() < 0.5]
-        elif r < 0.92:
+        elif r < 0.86:
+            op = ["Introspect", i, rnd.randint(0, 4)]
+        elif r < 0.95:
             if rnd.random() < 0.5:
                 n = 50 + rnd.randint(0, 1)
             k = rnd.choice(["KConst", "KTraitList"])
             if n < len(traits) and traits[n]["kind"] in ("KTraitDict", "KTraitSet"):
                 k = "KConst"     # a List trait over a live dict/set object makes that object's items events ill-typed
             op = ["AddTrait", i, n, dict(kind=k, content=gen_content(rnd, k))]
+            if k == "KConst" and rnd.random() < 0.6:
+                # one CTrait object handed to add_trait on several instances (same shared id => same object)
+                op[3]["shared"] = rnd.randint(0, 1)
+                op[3]["content"] = [3 + op[3]["shared"]]
+                ctx.count("add_trait:shared-ctrait")
             shadow[i][n] = k
             if n >= 50:
                 extra[i].add(n)
@@ -249,8 +258,24 @@ def all_kinds_case(static):
     return dict(traits=traits, sub=sub, ops=ops)
 
 
+def sharing_case():
+    """One CTrait object given to add_trait on two instances, a named handler on one, assignment on the other;
+    add_trait followed by every filtered / unfiltered introspection call, then a sibling and a new instance."""
+    traits = [dict(name=0, kind="KConst", content=[5], scalar=0, static=False),
+              dict(name=1, kind="KTraitList", content=[1, 2], scalar=0, static=True)]
+    sh = dict(kind="KConst", content=[3], shared=0)
+    ops = [["NewInst", 0], ["NewInst", 0], ["NewInst", 1],
+           ["AddTrait", 0, 50, dict(sh)], ["AddTrait", 1, 50, dict(sh)], ["AddTrait", 2, 0, dict(sh)],
+           ["Register", 0, 50, 1, False], ["Assign", 1, 50, [7], 0], ["Read", 1, 50], ["Register", 2, 0, 2, True],
+           ["Assign", 0, 50, [8], 0], ["Assign", 1, 0, [6], 0],
+           ["AddTrait", 0, 51, dict(kind="KTraitList", content=[4])]]
+    ops += [["Introspect", 0, m] for m in range(5)] + [["Introspect", 1, 0], ["NewInst", 0], ["Introspect", 3, 1],
+                                                       ["Read", 3, 0], ["Read", 3, 1], ["Read", 1, 1]]
+    return dict(traits=traits, sub=[], ops=ops)
+
+
 def corpus():
-    return [all_kinds_case(False), all_kinds_case(True)]
+    return [all_kinds_case(False), all_kinds_case(True), sharing_case()]
 
 
 def run(ctx):
@@ -274,7 +299,7 @@ def run(ctx):
         cases = [json.load(open(ctx.replay))["replay"]["case"]]
     else:
         cases = corpus() + [gen_case(rnd, ctx, maxlen) for _ in range(n)]
-    for c in cases[2:4] + cases[-2:]:
+    for c in cases[2:5] + cases[-1:]:
         ctx.sample(c)
     _evaluate = hist.evaluate
 
@@ -282,7 +307,7 @@ def run(ctx):
         k["shard"] = 40
         return _evaluate(*a, **k)
     hist.evaluate = sharded
-    _shrink, budget = hist.shrink, [3]
+    _shrink, budget = hist.shrink, [2]
 
     def bounded_shrink(ctx_, driver, case, to_term_, header, case_type, which, step, clause, rounds=3):
         if budget[0] <= 0:            # many distinct failures: report the rest unshrunk
